@@ -140,9 +140,18 @@ class Unit:
         labels = [l.label for l in X.find_loops(ctext)]
         want = sp.lst('loops')
         self.shape_changed = None
+        self.extra_loops = []
         if want and labels != want:
-            # the loop contracts no longer fit; the driver falls back to a bounded search with the function contract
-            self.shape_changed = 'loop shape changed: code has %s, contract written for %s' % (labels, want)
+            needed = set(sp.loops)
+            for c in sp.configs.values():
+                needed |= {it.split(':')[0] for it in c.get('unwind_loops', '').split()}
+            if needed <= set(labels) and set(want) <= set(labels):
+                # every loop the contract talks about is still there; the code has additional loops.
+                # They get unwound with a default bound (unwinding assertions on), the contract is still checked.
+                self.extra_loops = [l for l in labels if l not in want]
+            else:
+                # the loop contracts no longer fit; the driver falls back to a bounded search with the function contract
+                self.shape_changed = 'loop shape changed: code has %s, contract written for %s' % (labels, want)
         self.info['loops'] = labels
         return ctext
 
@@ -233,7 +242,7 @@ def run_config(unit, cfgname, workdir, tier='quick', mutate=None, want_trace=Fal
     cfile = os.path.join(workdir, tag + '.c')
     open(cfile, 'w').write(csrc)
     res.cfile = cfile
-    defs = cfg.get('defs', '')
+    defs = ' '.join(shlex.quote(d) for d in cfg.get('defs', '').split())
     inc = '-I%s -I%s' % (os.path.join(HERE, 'shim'), os.path.join(VERIF, 'contracts', 'lib'))
     entry = cfg.get('entry', 'harness')
     a, b = os.path.join(workdir, tag + '.a.gb'), os.path.join(workdir, tag + '.b.gb')
@@ -246,6 +255,25 @@ def run_config(unit, cfgname, workdir, tier='quick', mutate=None, want_trace=Fal
         res.log = err + out
         return res
     enforce = cfg.get('enforce', sp.meta.get('cname', ''))
+    # loops with a compile-time constant trip count and no contract, nested in loops with contracts, are unwound first
+    extra = getattr(unit, 'extra_loops', [])
+    if cfg.get('unwind_loops') or (extra and enforce and enforce != 'none'):
+        ids = {l.label: l.cbmc_id for l in X.find_loops(ctext)}
+        us = []
+        for item in cfg.get('unwind_loops', '').split() + ['%s:%s' % (l, cfg.get('unwind_extra', '6')) for l in extra]:
+            lab, k = item.split(':')
+            if lab not in ids:
+                res.status, res.reason = 'inconclusive', 'extraction broke: unwind_loops names missing loop ' + lab
+                return res
+            us.append('%s.%d:%s' % (sp.meta.get('cname'), ids[lab], k))
+        a2 = os.path.join(workdir, tag + '.u.gb')
+        gu = 'goto-instrument --unwindset %s --unwinding-assertions %s %s' % (','.join(us), a, a2)
+        rc, out, err, dt = sh(gu, 300)
+        res.cmds.append(gu)
+        if rc != 0:
+            res.status, res.reason = 'inconclusive', 'goto-instrument --unwindset failed: ' + (err + out)[-500:]
+            return res
+        a = a2
     gi = ''
     if enforce and enforce != 'none':
         gi = 'goto-instrument --dfcc %s --enforce-contract %s' % (entry, enforce)
@@ -271,6 +299,9 @@ def run_config(unit, cfgname, workdir, tier='quick', mutate=None, want_trace=Fal
         flags += ' --unwind %s --unwinding-assertions' % unwind
     else:
         pass
+    if extra and not unwind:
+        flags += ' --unwind %s --unwinding-assertions' % cfg.get('unwind_extra', '6')
+        res.reason = 'code has loops the contract does not know (%s): unwound %s times' % (extra, cfg.get('unwind_extra', '6'))
     flags += ' ' + SOLVERS[res.backend]
     if cfg.get('object_bits'):
         flags += ' --object-bits ' + cfg['object_bits']
